@@ -85,8 +85,14 @@ def signature(fmt, v, o):
     if n in ("json-list", "json-object"):
         if any(t in ("A", "E", "RA") for t in types) and o["write"] == "crash":
             return "json-adt-abort"
-        if "f" in types and o["write"] == "ok" and o["read"] in ("ok", "error"):
-            return "json-float"
+        # only the float values JSON has no literal for: inf / -inf / nan are printed as bare words (the reader then
+        # refuses the file) and the sign of -0.0 is lost; every other float deviation in JSON is a violation
+        bad = [x for ty, x in zip(types, v["t"]) if ty == "f" and
+               ((x["k"] == "fs" and x["s"] in ("inf", "-inf", "nan")) or (x["k"] == "fv" and x["neg"] and io.text(x["m"]) == "0"))]
+        if bad and o["write"] == "ok":
+            special = any(x["k"] == "fs" for x in bad)
+            if (special and o["read"] == "error") or (not special and o["read"] == "ok" and o["cmp"] == (1, 1)):
+                return "json-float"
         return None
     if n == "sqlite":
         if any(t in ("A", "E") for t in types) and o["read"] == "crash":
